@@ -1003,3 +1003,24 @@ Proof.
   - exists (s_data ++ [10]), [10]. rewrite <- !app_assoc. reflexivity.
   - intros C. apply containsb_complete in C. vm_compute in C. discriminate.
 Qed.
+
+(* ---- LoadBinary ---------------------------------------------------------------------------------------------------------------- *)
+Lemma binary_size_accept_inside : forall file_size order size,
+  check_binary_size file_size order size = BinUndecided ->
+  forall offset, offset < total_header_size order + size -> offset < file_size.
+Proof.
+  intros fs o sz H off L. unfold check_binary_size in H.
+  destruct (fs <? total_header_size o + sz) eqn:E; [discriminate|]. apply N.ltb_ge in E. lia.
+Qed.
+
+Lemma binary_size_reject_truncated : forall file_size order size,
+  file_size < total_header_size order + size -> check_binary_size file_size order size = BinReject Format.
+Proof. intros fs o sz H. unfold check_binary_size. apply N.ltb_lt in H. rewrite H. reflexivity. Qed.
+
+(* the header counts too: a file that misses no more than the header's worth of bytes is still rejected *)
+Lemma binary_size_header_counts : forall order size t, 0 < t -> t <= total_header_size order ->
+  check_binary_size (total_header_size order + size - t) order size = BinReject Format.
+Proof. intros o sz t T1 T2. apply binary_size_reject_truncated. lia. Qed.
+
+Example header_size_trigram : total_header_size 3 = 136.
+Proof. reflexivity. Qed.
